@@ -1,2 +1,3 @@
+pub mod regret;
 pub mod threads;
 pub mod totality;
